@@ -203,6 +203,15 @@ impl Str {
     pub fn as_str<'a>(&'a self) -> (r: &'a Str)
         ensures r@ == self@,
     { unimplemented!() }
+    /// `String::pop` (REAL std contract): removes the last character and returns it; `None` (and no change) on the
+    /// empty string.  It does NOT look at what that character is -- an edit that strips the line terminator with
+    /// `pop()` is judged against "line without trailing whitespace" for a last line that has no terminator.
+    #[verifier::external_body]
+    pub fn pop(&mut self) -> (r: Option<char>)
+        ensures
+            old(self)@.len() == 0 ==> r is None && final(self)@ == old(self)@,
+            old(self)@.len() > 0 ==> r == Some(old(self)@.last()) && final(self)@ == old(self)@.drop_last(),
+    { unimplemented!() }
     // ---- calls a plausible edit might start using: NO postcondition, so the edit is judged by the contracts ----
     #[verifier::external_body]
     pub fn trim<'a>(&'a self) -> (r: &'a Str) { unimplemented!() }
